@@ -4,7 +4,7 @@ from .. import simprop
 ID = "C11"
 FAMILY = "C11"
 VARIANTS = ("asan",)
-BUDGET = {"quick": dict(examples=16000, seconds=60), "thorough": dict(examples=400000, seconds=540)}
+BUDGET = {"quick": dict(examples=80000, seconds=55), "thorough": dict(examples=2000000, seconds=540)}
 NONTRIVIAL = {'buffer-partial-transfer', 'buffer-amount-above-capacity'}
 PROFILES = [(4, 'buffer'), (1, 'mixed')]
 RULE = ('Hypothesis-generated scenarios (profile buffer 80%, mixed 20%): producers and consumers on buffers of capacity 1-6 and unlimited, amounts 0 (get), 1..9, near 2^64, interrupts / timeouts / stops between partial transfers. Oracle: after every event 0 <= level <= capacity, space == capacity - level and level == sum of put transfers - sum of get transfers, counting completed calls by their reported amounts and blocked calls by the in-flight value of their amount variable; SUCCESS means the full request was transferred. Non-trivial = a partial transfer was reported or an amount above the capacity was requested. distinct = SHA-1 of the scenario text.')
